@@ -68,16 +68,18 @@ Proof.
 Qed.
 Print Assumptions C13_hidden_subtrees_cut.
 
-(* every row carries the audit's own verdicts for its node: its self-safety flag is is_self_safe(),
-   and it is marked fully safe exactly when the audit of the graph below it reports nothing *)
+(* every row carries the audit's own verdicts for its node: its self-safety flag is is_self_safe() and its text is format()
+   AS THE NODE'S OWN CLASS IMPLEMENTS THEM (self_safe_of / format_of: the protocol-0 FunctionNode checks and shows the name it
+   audits, content.module_path.function -- D31-FunctionNode@0 repaired; every other class the header's module.class), and it
+   is marked fully safe exactly when the audit of the graph below it reports nothing *)
 Theorem C13_row_is_audit :
   forall E T skipped root fuel path name level last h subs r rs,
     fst (walk E T skipped root fuel path name level last (Node h subs)) = r :: rs ->
     r_level r = level /\ r_key r = name /\ r_last r = last /\
-    self_safe E T h = Ok (r_self_safe r) /\
+    self_safe_of E T h subs = Ok (r_self_safe r) /\
     (h_kind h <> KJson -> (r_safe r = true <-> unsafe E T root (Node h subs) = Ok [])) /\
     (h_kind h = KJson -> r_safe r = true) /\
-    node_format h = Ok (r_val r).
+    format_of h subs = Ok (r_val r).
 Proof. intros. eapply walk_first_node; eauto. Qed.
 Print Assumptions C13_row_is_audit.
 
@@ -98,16 +100,40 @@ Theorem C13_marks :
 Proof. exact label_marks. Qed.
 Print Assumptions C13_marks.
 
-(* non-self-safe implies not fully safe (so an unsafe name never sits in a row marked safe): for EVERY node kind but the
-   protocol-0 FunctionNode (finding D31-FunctionNode@0, open: its row shows the header's module.class while its audit looks
-   at content.module_path / content.function).  SliceNode is covered since the D31-SliceNode repair: its get_unsafe_set
-   now reports the type the header names unless is_self_safe() *)
+(* non-self-safe implies not fully safe (so an unsafe name never sits in a row marked safe): for EVERY node kind, no
+   exception left.  SliceNode is covered since the D31-SliceNode repair (its get_unsafe_set reports the type the header names
+   unless is_self_safe()); the protocol-0 FunctionNode since the D31-FunctionNode@0 repair (its is_self_safe() tests the very
+   name its get_unsafe_set reports).  For the other kinds self_safe_of is Node.is_self_safe on the header
+   (C13_own_class_methods). *)
 Theorem C13_self_unsafe_not_safe :
-  forall E T root h subs, h_kind h <> KFunctionV0 ->
-    self_safe E T h = Ok false ->
+  forall E T root h subs,
+    self_safe_of E T h subs = Ok false ->
     forall u, unsafe E T root (Node h subs) = Ok u -> u <> [].
-Proof. intros E T root h subs NV SS u. apply self_unsafe_not_safe_but_v0; assumption. Qed.
+Proof. intros E T root h subs SS u. apply self_unsafe_not_safe_any; assumption. Qed.
 Print Assumptions C13_self_unsafe_not_safe.
+
+(* what self_safe_of / format_of are: the header's verdict and text for every kind but the protocol-0 FunctionNode; for that
+   kind the row's flag, the row's text and the audit all come from ONE name, content.module_path + "." + content.function:
+   the row shows it, is self-safe iff the node's trusted list holds it, and the audit reports exactly it otherwise; when the
+   content is malformed (not a dict with both keys: KeyError / TypeError) format(), is_self_safe() and the audit raise the
+   same exception (format() is called first by walk_tree, so that is the one visualize raises: C13_row_is_audit has no row) *)
+Theorem C13_own_class_methods :
+  (forall E T h subs, h_kind h <> KFunctionV0 ->
+     self_safe_of E T h subs = self_safe E T h /\ format_of h subs = node_format h)
+  /\ (forall E T root h subs, h_kind h = KFunctionV0 ->
+       format_of h subs = function_name h subs
+       /\ (forall b, self_safe_of E T h subs = Ok b ->
+             exists fn, function_name h subs = Ok fn /\ b = mem fn (node_trusted E T h)
+                        /\ unsafe E T root (Node h subs) = Ok (if b then [] else [fn]))
+       /\ (forall e, self_safe_of E T h subs = Raise e ->
+             function_name h subs = Raise e /\ unsafe E T root (Node h subs) = Raise e)).
+Proof.
+  split.
+  - intros E T h subs NV. split; [apply self_safe_of_not_v0; exact NV | apply format_of_not_v0; exact NV].
+  - intros E T root h subs KV. split; [unfold format_of; rewrite KV; reflexivity|].
+    exact (v0_self_safe_is_audit E T root h subs KV).
+Qed.
+Print Assumptions C13_own_class_methods.
 
 (* the former witness of D31-SliceNode, {"__loader__": "SliceNode", "__module__": "x", "__class__": "y", bounds None}:
    with no trusted list the name x.y is REPORTED by get_untrusted_types, load refuses the archive, and the single row
@@ -140,6 +166,47 @@ Theorem C13_slice_name_reported :
   /\ (exists t, load_audit slice_env w_slice (TList (Some [s "x.y"])) = Ok t).
 Proof. repeat split; try (vm_compute; reflexivity). eexists. vm_compute. reflexivity. Qed.
 Print Assumptions C13_slice_name_reported.
+
+(* the former witnesses of D31-FunctionNode@0, both a protocol-0 FunctionNode inside a list, no trusted list given.
+   GENUINE (what skops 0.x wrote): the header names the TYPE of the function (module of the function, class "ufunc"), the
+   content names a default-trusted ufunc (the first default of the protocol-0 FunctionNode in this run's snapshot): nothing is
+   reported, load accepts, and BOTH rows are self-safe and fully safe -- the function's row shows the function's name (before
+   the repair it showed <module>.ufunc tagged [UNSAFE] under a fully safe root).
+   TAMPERED: the header names that trusted ufunc, the content names os.getcwd: os.getcwd is reported, load refuses, and the
+   function's row SHOWS os.getcwd, not self-safe and not fully safe, in show = all and show = untrusted (before the repair the
+   row showed the trusted name, self-safe, and os.getcwd was displayed nowhere). *)
+Definition fn0_tag : pstr := s "old._general_v0.FunctionNode".
+Definition fn0_default : pstr := hd (s "scipy.special._ufuncs.expit") (defaults slice_env fn0_tag).
+Definition fn0_mod : pstr := join [dot] (removelast (split_on dot fn0_default)).
+Definition fn0_fun : pstr := last (split_on dot fn0_default) [].
+Definition w_fn0_in_list (hm hc cm cf : pstr) : json :=
+  JObj [(s "__class__", JStr (s "list")); (s "__module__", JStr (s "builtins")); (s "__loader__", JStr (s "ListNode")); (s "__id__", JInt 1%Z);
+        (s "content", JArr [JObj [(s "__class__", JStr hc); (s "__module__", JStr hm); (s "__loader__", JStr (s "FunctionNode"));
+                                  (s "__id__", JInt 2%Z);
+                                  (s "content", JObj [(s "module_path", JStr cm); (s "function", JStr cf)])]]);
+        (s "protocol", JInt 0%Z)].
+Definition w_fn0_genuine : json := w_fn0_in_list fn0_mod (s "ufunc") fn0_mod fn0_fun.
+Definition w_fn0_tampered : json := w_fn0_in_list fn0_mod fn0_fun (s "os") (s "getcwd").
+
+Theorem C13_function_v0_name_shown :
+  qual fn0_mod fn0_fun = fn0_default /\ mem fn0_default (defaults slice_env fn0_tag) = true
+  /\ get_untrusted_types slice_env w_fn0_genuine = Ok []
+  /\ (exists t, load_audit slice_env w_fn0_genuine (TList None) = Ok t)
+  /\ flags (visualize slice_env Snapshot.skipped w_fn0_genuine None ShowAll)
+     = Ok [(0%nat, s "builtins.list", true, true); (1%nat, fn0_default, true, true)]
+  /\ get_untrusted_types slice_env w_fn0_tampered = Ok [s "os.getcwd"]
+  /\ load_audit slice_env w_fn0_tampered (TList None) = Raise (EUntrusted [s "os.getcwd"])
+  /\ flags (visualize slice_env Snapshot.skipped w_fn0_tampered None ShowAll)
+     = Ok [(0%nat, s "builtins.list", true, false); (1%nat, s "os.getcwd", false, false)]
+  /\ flags (visualize slice_env Snapshot.skipped w_fn0_tampered None ShowUntrusted)
+     = Ok [(0%nat, s "builtins.list", true, false); (1%nat, s "os.getcwd", false, false)]
+  /\ flags (visualize slice_env Snapshot.skipped w_fn0_tampered None ShowTrusted)
+     = Ok [(0%nat, s "builtins.list", true, false)].
+Proof.
+  split; [vm_compute; reflexivity|]. split; [vm_compute; reflexivity|]. split; [vm_compute; reflexivity|].
+  split; [eexists; vm_compute; reflexivity|]. repeat split; vm_compute; reflexivity.
+Qed.
+Print Assumptions C13_function_v0_name_shown.
 
 (* no row is marked fully safe while an untrusted name occurs at or beneath it: a node whose audit is empty
    (that is what r_safe = true means, C13_row_is_audit) has no untrusting node anywhere in its subtree *)
